@@ -234,19 +234,26 @@ class LoopingCall:
             self._scheduleFrom(self.starttime)
 
     def __call__(self) -> None:
+        # The Deferred of the run this invocation belongs to: the function may
+        # stop() the loop and start() it again before it completes.
+        runDeferred = self._deferred
+        assert runDeferred is not None
+
         def cb(result: object) -> None:
-            if self.running:
+            if self._deferred is not runDeferred:
+                # A new run was started meanwhile; it does its own scheduling.
+                runDeferred.callback(self)
+            elif self.running:
                 self._scheduleFrom(self.clock.seconds())
             else:
-                d, self._deferred = self._deferred, None
-                assert d is not None
-                d.callback(self)
+                self._deferred = None
+                runDeferred.callback(self)
 
         def eb(failure: Failure) -> None:
-            self.running = False
-            d, self._deferred = self._deferred, None
-            assert d is not None
-            d.errback(failure)
+            if self._deferred is runDeferred:
+                self.running = False
+                self._deferred = None
+            runDeferred.errback(failure)
 
         self.call = None
         d = maybeDeferred(self.f, *self.a, **self.kw)
